@@ -314,6 +314,33 @@ class ParserRoundTrip:
                     if el in res:
                         ok = _same_cols(parsed_columns(res[el]), written_columns(basis, el))
                         M.true(name + "/shells[%s]" % el, ok, "angular momentum, exponents and coefficient columns in file order")
+                # what the parser returns is the argument of make_contractions: neither a valid nor a deliberately invalid call (an
+                # element the file does not contain) may alter it - not even by adding a key
+                if i == 0:
+                    import copy
+
+                    def snap(d):
+                        return [(k, [(int(l_), np.asarray(e_).tolist(), np.asarray(c_).tolist()) for l_, e_, c_ in v]) for k, v in d.items()]
+
+                    before = snap(res)
+                    restore = _stub_norm(M)  # the shells' normalisation is not the subject here (its contract is C01)
+                    try:
+                        try:
+                            par.make_contractions(res, [elems[0]], np.zeros((1, 3)), "spherical")
+                        except Exception as e:  # noqa
+                            M.true(name + "/make_contractions/accepts-parsed-basis", False, "%s: %s" % (type(e).__name__, e))
+                        M.true(name + "/make_contractions/frame[valid call]", snap(res) == before, "the parsed basis is unchanged by a valid call")
+                        raised = None
+                        try:
+                            par.make_contractions(res, ["Qq"], np.zeros((1, 3)), "spherical")
+                        except Exception as e:  # noqa
+                            raised = e
+                    finally:
+                        restore()
+                    M.true(name + "/make_contractions/frame[unknown element]", snap(res) == before,
+                           "the parsed basis is unchanged by a call naming an element it does not contain (keys before %s, after %s)" % ([k for k, _ in before], list(res.keys())))
+                    M.true(name + "/make_contractions/unknown-element-is-not-silently-dropped", raised is not None,
+                           "a molecule with an element the basis file lacks cannot be given 'each atom's shells': the call must not return a basis without it")
         finally:
             import shutil
 
